@@ -1420,6 +1420,32 @@ theorem C11_no_spurious_panic (F : Format) (L : Laws F) (st : St) (op : Op) (hwf
             | exact h'.elim
             | exact (Spec.step_panic_state F _ _ h').symm
 
+/-- **Witness of the early size limit** (why `C11_no_spurious_panic` has a size hypothesis): growing a
+full 2^31-byte buffer by one byte hits `checked_next_power_of_two().expect(OFLOW)` in
+`Buf32::grow`, although the documented limit of a tendril is 4 GB and an owned string would
+accept the push.  Confirmed on the real code (`from_slice` of 2^31 bytes, `push_slice(b"x")`
+panics; with 2^31 − 1 or 2^31 + 1 initial bytes it does not, because no growth is needed). -/
+theorem C11_witness_oflow_2gib :
+    buf32Grow Heap.empty 0 2147483648 2147483649 = .error (.panic "OFLOW: checked_next_power_of_two") ∧
+    (∃ r, buf32Grow ⟨[⟨[], 2147483632, 0, 1, true⟩], []⟩ 0 2147483632 2147483648 = .ok r) := by
+  constructor
+  · rfl
+  · exact ⟨_, rfl⟩
+
+/-- **Defect witness (WTF-8 validation).**  The model of `WTF8::validate` — faithful to `fmt.rs` —
+accepts byte strings that are not WTF-8: after a complete 2- or 3-byte character a stray
+continuation byte makes `futf::classify` answer with the *previous* character (found by its
+backward scan), the loop then advances by that character's length and skips whatever follows.
+`C2 80 80` is accepted although it is not even generalized UTF-8 (and contains no surrogate, so
+WTF-8 and UTF-8 validity coincide: `validUtf8` rejects it), and so is `C2 80 80 FF`, although `FF`
+is no UTF-8 byte at all.  Hence `try_from_byte_slice` / `try_push_bytes` on a `Tendril<WTF8>` do
+not fail "exactly when the bytes would break the format"; this is why WTF-8 has no `Laws`
+instance.  Confirmed on the real code (case `tendril wtf8 N from 0 c2 80 80`). -/
+theorem C11_witness_wtf8_validate :
+    Format.wtf8.validate [0xC2, 0x80, 0x80] = true ∧ validUtf8 [0xC2, 0x80, 0x80] = false ∧
+    Format.wtf8.validate [0xC2, 0x80, 0x80, 0xFF] = true ∧ byteK 0xFF = none ∧
+    Format.wtf8.validate [0xE2, 0x82, 0xAC, 0x80, 0xFF, 0xFF] = true := by decide
+
 /-! ## non-vacuity -/
 
 theorem init_wf (slots : Nat) : StWF (St.init slots) := by
